@@ -142,7 +142,12 @@ class FanoutRunner:
                     elif name == 'copy':
                         new = _c.copy(self.cache)
                     else:
-                        self.cache.close()
+                        if form == 1:
+                            with self.cache as entered:          # the context manager form of close()
+                                if entered is not self.cache:
+                                    raise TypeError('__enter__ returned another object')
+                        else:
+                            self.cache.close()
                         new = self.dc.FanoutCache(self.dir, shards=self.n, timeout=0.01)
                     self.cache = new
                     ret = R('none')
